@@ -582,6 +582,8 @@ def correspond_nf(ctx, strings, reals, disagreements, label):
         bad = m["ellList"] or m["ellEll"] or m["flatConcat"]
         if not m["excluded"]:
             ctx.count("nf:not_excluded")
+            if m["adjSpaces"]:
+                ctx.count("nf:not_excluded_with_adjacent_spaces")
             if not same:
                 disagreements.append((label, "nf", s, f"not Excluded, but the real round trip fails: str = {r['str']!r}, "
                                       f"reparse {json.dumps({k: v for k, v in r2.items() if k != 'ok'})[:160]}"))
@@ -591,9 +593,7 @@ def correspond_nf(ctx, strings, reals, disagreements, label):
                 ctx.count("nf:excluded_pattern_but_roundtrips")
                 disagreements.append((label, "nf", s, f"tree contains an excluded pattern but the real round trip succeeds: {r['str']!r}"))
         else:
-            ctx.count("nf:excluded_open_restriction")
-            if not same:
-                disagreements.append((label, "nf", s, f"excluded only by an open restriction, real round trip fails: {r['str']!r}"))
+            disagreements.append((label, "nf", s, "Excluded without one of the three patterns"))
 
 
 def run(ctx):
